@@ -31,7 +31,32 @@ D3 == {VObj(<<<<<<97>>, VObj(<<<<<<98>>, VObj(<<<<<<99>>, x>>>>)>>>>)>>>>) : x \
       \cup {VArr(<<VObj(<<<<<<97>>, VArr(<<VObj(<<<<<<98>>, VNull>>>>)>>)>>>>)>>)}
 Raws == {VRaw(<<120>>), VArr(<<VRaw(<<91, 49, 93>>), VNull>>)}
 
-Universe == IF Tier = "quick" THEN Scalars \cup L1 \cup D3 \cup Raws ELSE Scalars \cup L1 \cup L2 \cup D3 \cup Raws
+\* beyond the small scope: long strings with escapes at every alignment, wide arrays (several buffer growths), deep indentation
+As(n) == Rep8(97, n)
+EscLens == (14..18) \cup (30..34) \cup (46..50) \cup (62..66) \cup {96, 112, 128}
+EscStrs == {<<10>> \o As(n - 3) \o <<34, 92>> : n \in EscLens} \cup {<<92>> \o As(n - 4) \o <<34, 9, 1>> : n \in EscLens}
+           \cup {As(3) \o <<1>> \o As(n - 6) \o <<31, 2>> : n \in EscLens} \cup {As(n - 2) \o <<9, 1>> : n \in EscLens} \cup {<<34>> \o As(n - 1) : n \in EscLens}
+LongStrs == {As(n) : n \in {100, 253, 254, 255, 256, 257, 300, 511, 512, 600}} \cup {As(n) \o <<10>> : n \in {250, 254, 255, 256, 520}}
+RECURSIVE Nest(_, _)
+Nest(d, leaf) == IF d = 0 THEN leaf ELSE VObj(<< <<<<107>>, Nest(d - 1, leaf)>>, <<<<108>>, VArr(<<VNum(N_one), Nest(d - 1, leaf)>>)>> >>)
+RECURSIVE Chain1(_, _)
+Chain1(d, leaf) == IF d = 0 THEN leaf ELSE VObj(<< <<<<107>>, VArr(<<Chain1(d - 1, leaf)>>)>> >>)
+BigTrees == {VStr(x) : x \in EscStrs \cup LongStrs}
+            \cup {VArr(<<VStr(x), VNum(N_one)>>) : x \in EscStrs} \cup {VArr(<<VNull, VStr(x)>>) : x \in EscStrs}
+            \cup {VObj(<< <<x, VStr(x)>>, <<<<107>>, VTrue>> >>) : x \in EscStrs}
+            \cup {VObj(<< <<x, VNull>> >>) : x \in {As(16), As(32), <<10>> \o As(28) \o <<34, 92>>, As(255), As(300)}}
+            \cup {VArr([i \in 1..n |-> VNum(IF Rem(i, 2) = 0 THEN N_tenth ELSE N_neg_pi)]) : n \in {8, 17, 30, 64, 100}}
+            \cup {VArr([i \in 1..n |-> VStr(As(20))]) : n \in {12, 13, 40}}
+            \cup {VObj([i \in 1..n |-> <<<<107, 48 + (i \div 10), 48 + Rem(i, 10)>>, VNum(N_frac)>>]) : n \in {9, 17, 33}}
+            \cup {Nest(3, VNull), Nest(4, VStr(<<120>>)), Chain1(12, VTrue), Chain1(20, VArr(<<>>)), Chain1(7, VObj(<<>>))}
+            \cup {VNum(n) : n \in NumIds}
+
+\* tokens of tens of kilobytes: the print buffer passes 64 KiB and single tokens exceed half of it (emission of Render only)
+HugeTrees == {VObj(<< <<<<104>>, VStr(As(40000))>>, <<<<110>>, VNum(N_one)>>, <<<<98>>, VStr(As(100000))>>, <<<<116>>, VArr(<<VTrue, VNull>>)>> >>),
+              VStr(As(66000)), VArr([i \in 1..9000 |-> VStr(As(7))]) }
+Universe == IF Tier = "huge" THEN HugeTrees ELSE IF Tier = "quick" THEN Scalars \cup L1 \cup D3 \cup Raws
+            ELSE IF Tier = "big" THEN BigTrees
+            ELSE Scalars \cup L1 \cup L2 \cup D3 \cup Raws
 
 RECURSIVE HasRaw(_)
 HasRaw(x) == x.t = "raw" \/ \E i \in DOMAIN x.m : HasRaw(x.m[i].v)
@@ -44,13 +69,14 @@ Check ==
       \* allocating entry points: every initial size that matters, both growth strategies
       okAlloc == \A rl \in BOOLEAN :
                    /\ LET r == PrintAlloc(v, fmt, rl, 256) IN r.ok /\ ~r.p.ovf /\ ~r.p.unt /\ r.text = text
-                   /\ \A pre \in 0..(L + 2) :
+                   /\ \A pre \in (IF L <= 80 THEN 0..(L + 2) ELSE {0, 1, 2, 3, 16, 255, 256, 257, L - 1, L, L + 1, L + 2, L + 100}) \cup {L + 4097, L + 5000} :
                         LET r == PrintBuffered(v, fmt, rl, pre) IN r.ok /\ ~r.p.ovf /\ ~r.p.unt /\ r.text = text
       \* caller buffer
       pre(n) == PrintPreallocated(v, fmt, n)
-      safe == \A n \in 0..(L + 8) : LET r == pre(n) IN ~r.p.ovf /\ r.p.hi <= n /\ (r.ok => r.text = text /\ ZeroFrom(r.p.buf, 1) = L + 1)
-      thr == IF \E n \in 0..(L + 8) : pre(n).ok THEN CHOOSE n \in 0..(L + 8) : pre(n).ok /\ \A k \in 0..(n - 1) : ~pre(k).ok ELSE -1
-      mono == \A n \in 0..(L + 7) : pre(n).ok => pre(n + 1).ok
+      NS0 == IF L <= 80 THEN 0..(L + 8) ELSE {0, 1, 2, 17, 255, 256, 257} \cup ((L - 20)..(L + 8))
+      safe == \A n \in NS0 : LET r == pre(n) IN ~r.p.ovf /\ r.p.hi <= n /\ (r.ok => r.text = text /\ ZeroFrom(r.p.buf, 1) = L + 1)
+      thr == IF \E n \in NS0 : pre(n).ok THEN CHOOSE n \in NS0 : pre(n).ok /\ \A k \in NS0 : k < n => ~pre(k).ok ELSE -1
+      mono == \A n \in NS0 : (n + 1 \in NS0 /\ pre(n).ok) => pre(n + 1).ok
       strict == HasRaw(v) \/ (IsText(text, "rfc") /\ StrictEq(TextValue(text, "rfc"), Canon(v)))
       strip == StripWs(Render(v, TRUE, 0), FALSE, FALSE) = Render(v, FALSE, 0)
   IN /\ Assert(okAlloc, <<"C04/C05: the buffer machine does not produce Render(v) for some entry point / buffer size / allocator", v, fmt>>)
@@ -59,5 +85,7 @@ Check ==
      /\ Assert(safe /\ mono /\ thr >= L + 1 /\ thr <= L + 6, <<"C09: printing into a caller buffer", v, fmt, thr>>)
      /\ (Emit => PrintT(ToJson(<<"R", JV(v), fmt, text, thr>>)))
 
-Next == phase = 0 /\ phase' = 1 /\ UNCHANGED <<v, fmt>> /\ Check
+\* huge trees: only the declarative text is produced (the buffer machine is checked on the smaller tiers)
+EmitOnly == LET text == Render(v, fmt, 0) IN Emit => PrintT(ToJson(<<"R", JV(v), fmt, text, Len(text) + 2>>))
+Next == phase = 0 /\ phase' = 1 /\ UNCHANGED <<v, fmt>> /\ (IF Tier = "huge" THEN EmitOnly ELSE Check)
 =============================================================================
